@@ -594,6 +594,7 @@ type Specs struct {
 	Lemmas          []*Axiom
 	GlobalInvs      []*GlobalInv
 	GuardedBy       map[string]string // global var -> lock global
+	SharedErrs      map[string]bool   // package-level error objects every evaluation can obtain (declared: shared_errors)
 	Errors          []string
 }
 
@@ -643,7 +644,7 @@ func (sp *Specs) parseFile(pkg string, lines []string) {
 		if i := strings.IndexAny(t, " \t"); i >= 0 {
 			word, rest = t[:i], strings.TrimSpace(t[i+1:])
 		}
-		if strings.HasSuffix(word, ":") && (word == "valueresults:" || word == "traced:") {
+		if strings.HasSuffix(word, ":") && (word == "valueresults:" || word == "traced:" || word == "shared_errors:") {
 			word = strings.TrimSuffix(word, ":")
 		}
 		switch word {
@@ -941,6 +942,18 @@ func (sp *Specs) parseFile(pkg string, lines []string) {
 			lock := strings.TrimSpace(rest[:i])
 			for _, v := range strings.Split(rest[i+1:], ",") {
 				sp.GuardedBy[strings.TrimSpace(v)] = lock
+			}
+			cur = nil
+		case "shared_errors":
+			// shared_errors: object.BuiltInNotImplemented  - the package-level *PanErr variables (process-wide error
+			// objects). Any other package-level variable of that type is reported by the C19 check.
+			if sp.SharedErrs == nil {
+				sp.SharedErrs = map[string]bool{}
+			}
+			for _, v := range strings.Split(strings.TrimPrefix(rest, ":"), ",") {
+				if v = strings.TrimSpace(v); v != "" {
+					sp.SharedErrs[v] = true
+				}
 			}
 			cur = nil
 		default:
